@@ -78,6 +78,15 @@ def run_variant(args):
             compile(s, fn, "exec")
     except SyntaxError as e:
         return (v["id"], kind, "fail", f"variant does not compile: {e}")
+    import signal
+
+    def _to(*a):
+        raise TimeoutError("variant analysis exceeded 120 s")
+    try:
+        signal.signal(signal.SIGALRM, _to)
+        signal.alarm(120)
+    except ValueError:
+        pass
     try:
         obs = run_rules(Repo(root, overlay=ov), v["rules"])
     except AnalysisError as e:
@@ -85,6 +94,10 @@ def run_variant(args):
     except Exception as e:  # pragma: no cover
         import traceback
         return (v["id"], kind, "fail", "internal error: " + " | ".join(traceback.format_exc().strip().splitlines()[-3:]))
+    try:
+        signal.alarm(0)
+    except ValueError:
+        pass
     bad = [o for o in obs if not o.ok]
     if kind == "M":
         if any(o.rule in v["rules"] for o in bad):
